@@ -485,4 +485,128 @@ def deckParseInfo (data : List UInt8) : Except PyErr DeckResult :=
 def deckQuery (m : Mem) : Except PyErr DeckResult :=
   deckParseInfo (m.read Gen.C14.deckInfoSectionAddress Gen.C14.deckSizeOfInfoSection)
 
+/-! ## Loco positioning anchor lists (loco_memory.py, loco_memory_2.py) -/
+
+/-- `AnchorData` / `AnchorData2`: position (three float32 bit patterns) and valid flag -/
+structure Anchor where
+  pos : V3
+  valid : Bool
+  deriving Repr, DecidableEq
+
+/-- `AnchorData.set_from_mem_data` -/
+def anchorParse (fmt : String) (d : List UInt8) : Except PyErr Anchor :=
+  match unpack (parseFmt! fmt) d with
+  | .error e => .error e
+  | .ok [.flt x, .flt y, .flt z, .bool v] => .ok ⟨⟨x, y, z⟩, v⟩
+  | .ok _ => .error .valueError
+
+/-- `AnchorData()`: the default entry of a freshly allocated `anchor_data` list (position (0.0, 0.0, 0.0)) -/
+def Anchor.default : Anchor := ⟨⟨0, 0, 0⟩, false⟩
+
+/-- `LocoMemory.new_data` for a page read at `addr`, repeated while `next_page < nr_of_anchors`:
+the page index is recomputed from the address, the entry of `anchor_data` replaced. -/
+def locoRun (m : Mem) (nr : Nat) : Nat → Nat → List Anchor → Except PyErr (List Anchor)
+  | 0, _, _ => .error .other                       -- fuel exhausted (never: `nr` iterations suffice)
+  | fuel + 1, addr, acc =>
+    let data := m.read addr Gen.C14.locoPageLen
+    let page := Gen.C14.locoPageOf addr
+    match anchorParse Gen.C14.locoAnchorFmt data with
+    | .error e => .error e
+    | .ok a =>
+      if page < acc.length then
+        let acc' := acc.set page a
+        let next := page + 1
+        if next < nr then locoRun m nr fuel (Gen.C14.locoPageAddr next) acc' else .ok acc'
+      else .error .indexError
+
+/-- what is observable on a `LocoMemory` after `update()` -/
+structure LocoParsed where
+  nr : Nat
+  anchors : List Anchor
+  valid : Bool
+  deriving Repr, DecidableEq
+
+/-- `LocoMemory.update` + `new_data`: the info byte, then one page per anchor -/
+def locoUpdate (m : Mem) : Except PyErr LocoParsed :=
+  match m.read Gen.C14.locoInfo Gen.C14.locoInfoLen with
+  | [] => .error .indexError                        -- data[0]
+  | n :: _ =>
+    if n.toNat = 0 then .ok ⟨0, [], true⟩
+    else
+      match locoRun m n.toNat n.toNat (Gen.C14.locoPageAddr 0) (List.replicate n.toNat Anchor.default) with
+      | .ok l => .ok ⟨n.toNat, l, true⟩
+      | .error e => .error e
+
+/-- `_handle_id_list_data` / `_handle_active_id_list_data`: `data[0]` ids follow the count (IndexError when the
+count exceeds what was read) -/
+def loco2Ids (data : List UInt8) : Except PyErr (List Nat) :=
+  match data with
+  | [] => .error .indexError
+  | n :: rest => if n.toNat ≤ rest.length then .ok ((rest.take n.toNat).map UInt8.toNat) else .error .indexError
+
+def loco2IdList (m : Mem) : Except PyErr (List Nat) :=
+  loco2Ids (m.read Gen.C14.loco2AdrIdList Gen.C14.loco2IdListLen)
+def loco2ActiveIdList (m : Mem) : Except PyErr (List Nat) :=
+  loco2Ids (m.read Gen.C14.loco2AdrActiveIdList Gen.C14.loco2IdListLen)
+
+/-- `update_data`: the pages of `anchor_ids`, in that order; `anchor_data[id] = anchor` with the id recomputed
+from the address -/
+def loco2Fetch (m : Mem) : List Nat → Dict Anchor → Except PyErr (Dict Anchor)
+  | [], d => .ok d
+  | id :: rest, d =>
+    let addr := Gen.C14.loco2PageAddr id
+    match anchorParse Gen.C14.loco2AnchorFmt (m.read addr Gen.C14.loco2PageLen) with
+    | .error e => .error e
+    | .ok a => loco2Fetch m rest (dictSet d (Gen.C14.loco2IdOf addr) a)
+
+/-- `update_id_list` then `update_data` (which does nothing when there are no anchors) -/
+def loco2Update (m : Mem) : Except PyErr (List Nat × Dict Anchor) :=
+  match loco2IdList m with
+  | .error e => .error e
+  | .ok ids => (loco2Fetch m ids []).map (ids, ·)
+
+/-! ## Write-only images: polynomial trajectory pieces, LED timing sequences -/
+
+/-- `Poly4D.pack`: x, y, z, yaw coefficient lists (any length: struct.error unless 8) and the duration -/
+def poly4dPack (x y z yaw : List Nat) (duration : Nat) : Except PyErr (List UInt8) := do
+  let a ← pack (parseFmt! (Gen.C14.polyFmts.getD 0 "")) (x.map .flt)
+  let b ← pack (parseFmt! (Gen.C14.polyFmts.getD 1 "")) (y.map .flt)
+  let c ← pack (parseFmt! (Gen.C14.polyFmts.getD 2 "")) (z.map .flt)
+  let d ← pack (parseFmt! (Gen.C14.polyFmts.getD 3 "")) (yaw.map .flt)
+  let e ← pack (parseFmt! (Gen.C14.polyFmts.getD 4 "")) [.flt duration]
+  pure (a ++ b ++ c ++ d ++ e)
+
+/-- `TrajectoryMemory.write_data`: the packed elements, concatenated -/
+def trajImage : List (List Nat × List Nat × List Nat × List Nat × Nat) → Except PyErr (List UInt8)
+  | [] => .ok []
+  | (x, y, z, yaw, dur) :: rest => do
+    let a ← poly4dPack x y z yaw dur
+    let r ← trajImage rest
+    pure (a ++ r)
+
+/-- one entry of `LEDTimingsDriverMemory.timings` (non-negative integers; `fade` False/True = 0/1) -/
+structure LedTiming where
+  time : Nat
+  r : Nat
+  g : Nat
+  b : Nat
+  leds : Nat
+  fade : Nat
+  rotate : Nat
+  deriving Repr, DecidableEq
+
+def LedTiming.word (t : LedTiming) : Nat :=
+  Gen.C14.ledWord (Gen.C14.ledR5 (t.r &&& 255)) (Gen.C14.ledG6 (t.g &&& 255)) (Gen.C14.ledB5 (t.b &&& 255))
+def LedTiming.extra (t : LedTiming) : Nat := Gen.C14.ledExtra t.leds t.fade t.rotate
+
+/-- the four values appended for one timing (nothing for an all-zero record) -/
+def LedTiming.record (t : LedTiming) : List Nat :=
+  if (t.time &&& 255) ≠ 0 ∨ t.word ≠ 0 ∨ t.extra ≠ 0 then [t.time &&& 255, t.word >>> 8, t.word &&& 255, t.extra] else []
+
+/-- `LEDTimingsDriverMemory.write_data`: the records, the terminator; `bytearray(data)` raises ValueError for a value
+outside 0..255 -/
+def ledImage (ts : List LedTiming) : Except PyErr (List UInt8) :=
+  let data := (ts.map LedTiming.record).flatten ++ [0, 0, 0, 0]
+  if data.all (· < 256) then .ok (data.map UInt8.ofNat) else .error .valueError
+
 end CfVerif.C14
